@@ -8,7 +8,8 @@
    specials as \c and non-printables as \DDD, every label followed by a dot);
    [name_form true ls] is that text, [name_form false ls] the same without the
    final dot.  [mid ++ [last]] is an arbitrary non-root name. *)
-From Dns Require Import Model.Labels Proofs.EscapeProofs Proofs.LabelsProofs.
+From Dns Require Import Model.Labels Proofs.EscapeProofs Proofs.LabelsProofs
+  Proofs.LabelsMoreProofs.
 
 (* IsFqdn: exactly the strings ending in a dot that is preceded by an even
    number (possibly zero) of backslashes. *)
@@ -61,3 +62,300 @@ Theorem canonical_name_lowercases_labels :
     canonical_name (name_form fq (mid ++ [last])) =
     show_labels (map lower_bytes (mid ++ [last])).
 Proof. exact canonical_name_spec. Qed.
+
+(* ======================================================================
+   The remaining helpers (proofs in Proofs/LabelsMoreProofs.v).
+
+   From here on a non-root name is written [ls] with [labels_wf ls] and
+   [ls <> []]; this is the same set of names as [mid ++ [last]] above.
+   [form_tail fq] is the final dot of the FQDN form ([46] or nothing).
+   ====================================================================== *)
+
+(* ---- SplitDomainName: exactly the printed wire labels ---- *)
+Theorem split_domain_name_is_printed_wire_labels :
+  forall (fq : bool) (mid : list label) (last : label),
+    labels_wf mid -> last <> [] /\ wfb last ->
+    split_domain_name (name_form fq (mid ++ [last])) = Ok (map show_label (mid ++ [last])).
+Proof. exact split_domain_name_spec. Qed.
+Print Assumptions split_domain_name_is_printed_wire_labels.
+
+(* the root name and the empty string have no labels (Go returns nil) *)
+Theorem split_domain_name_of_root_and_empty :
+  split_domain_name [46%N] = Ok [] /\ split_domain_name [] = Ok [].
+Proof. exact split_domain_name_root. Qed.
+Print Assumptions split_domain_name_of_root_and_empty.
+
+(* ---- PrevLabel: n labels back from the end is the start of the n-th label from
+   the right; n = 0 is the length of the string; the start flag is raised exactly
+   when n EXCEEDS the label count (n = count lands on offset 0 with the flag
+   down). ---- *)
+Theorem prev_label_steps_back_over_wire_labels :
+  forall (fq : bool) (mid : list label) (last : label) (n : nat),
+    labels_wf mid -> last <> [] /\ wfb last ->
+    prev_label (name_form fq (mid ++ [last])) n =
+    match n with
+    | O => (length (name_form fq (mid ++ [last])), false)
+    | _ => (nth (length (mid ++ [last]) - n) (label_starts 0 (mid ++ [last])) O,
+            Nat.ltb (length (mid ++ [last])) n)
+    end.
+Proof. exact prev_label_spec. Qed.
+Print Assumptions prev_label_steps_back_over_wire_labels.
+
+(* the root name: no labels, yet one step back is not reported as an overshoot *)
+Theorem prev_label_of_root_and_empty :
+  forall n : nat,
+    prev_label [46%N] n = match n with O => (1%nat, false) | _ => (O, Nat.ltb 1 n) end /\
+    prev_label [] n = (O, true).
+Proof. intro n. split; [exact (prev_label_root n)|exact (prev_label_empty n)]. Qed.
+Print Assumptions prev_label_of_root_and_empty.
+
+(* ---- CompareDomainName.  The specification [common_suffix_ci ls1 ls2] counts,
+   from the right, the labels that labels.go equal accepts on their printed text
+   ([label_eq_ci]); both names must be in the same form. ---- *)
+Theorem compare_domain_name_is_common_suffix_count :
+  forall (fq : bool) (ls1 ls2 : list label),
+    labels_wf ls1 -> ls1 <> [] -> labels_wf ls2 -> ls2 <> [] ->
+    compare_domain_name (name_form fq ls1) (name_form fq ls2) = Ok (common_suffix_ci ls1 ls2).
+Proof. exact compare_domain_name_spec. Qed.
+Print Assumptions compare_domain_name_is_common_suffix_count.
+
+(* the count is the length of the longest common suffix: some common suffix has
+   that length and no common suffix is longer *)
+Theorem common_suffix_count_is_longest_common_suffix :
+  forall ls1 ls2 : list label,
+    (exists p1 c1 p2 c2, ls1 = p1 ++ c1 /\ ls2 = p2 ++ c2 /\
+                         length c1 = common_suffix_ci ls1 ls2 /\ labels_eq_ci c1 c2) /\
+    (forall p1 c1 p2 c2, ls1 = p1 ++ c1 -> ls2 = p2 ++ c2 -> labels_eq_ci c1 c2 ->
+                         (length c1 <= common_suffix_ci ls1 ls2)%nat).
+Proof. exact common_suffix_ci_longest. Qed.
+Print Assumptions common_suffix_count_is_longest_common_suffix.
+
+(* comparing the printed text of two labels case-insensitively is comparing the
+   wire labels case-insensitively (printing is injective and commutes with
+   lower-casing) *)
+Theorem label_comparison_on_text_is_comparison_on_wire :
+  forall a b : label, wfb a -> wfb b ->
+    equal_ci (show_label a) (show_label b) = equal_ci a b.
+Proof. exact label_eq_ci_wire. Qed.
+Print Assumptions label_comparison_on_text_is_comparison_on_wire.
+
+(* the root name (empty label list) on either side: 0, for any other string *)
+Theorem compare_domain_name_with_root_is_zero :
+  forall s : bytes,
+    compare_domain_name [46%N] s = Ok O /\ compare_domain_name s [46%N] = Ok O.
+Proof. intro s. split; [exact (compare_domain_name_root_l s)|exact (compare_domain_name_root_r s)]. Qed.
+Print Assumptions compare_domain_name_with_root_is_zero.
+
+(* REFUTED across forms: when exactly one of the two names has the final dot the
+   result is 0 whatever the labels are, because the first comparison includes the
+   dot.  Witness: nl against nl. *)
+Theorem compare_domain_name_mixed_forms_is_zero :
+  forall (fq : bool) (ls1 ls2 : list label),
+    labels_wf ls1 -> ls1 <> [] -> labels_wf ls2 -> ls2 <> [] ->
+    compare_domain_name (name_form fq ls1) (name_form (negb fq) ls2) = Ok O.
+Proof. exact compare_domain_name_mixed_forms. Qed.
+Print Assumptions compare_domain_name_mixed_forms_is_zero.
+
+Theorem compare_domain_name_mixed_forms_refuted :
+  let ls := [[110; 108]]%N in
+  labels_wf ls /\ common_suffix_ci ls ls = 1%nat /\
+  compare_domain_name (name_form false ls) (name_form true ls) = Ok O /\
+  is_sub_domain (name_form true ls) (name_form false ls) = Ok false.
+Proof. exact compare_domain_name_mixed_refuted. Qed.
+Print Assumptions compare_domain_name_mixed_forms_refuted.
+
+(* ---- IsSubDomain: the parent's labels are a suffix of the child's ---- *)
+Theorem is_sub_domain_is_suffix_test :
+  forall (fq : bool) (parent child : list label),
+    labels_wf parent -> parent <> [] -> labels_wf child -> child <> [] ->
+    exists b, is_sub_domain (name_form fq parent) (name_form fq child) = Ok b /\
+              (b = true <-> exists p c, child = p ++ c /\ labels_eq_ci parent c).
+Proof. exact is_sub_domain_iff. Qed.
+Print Assumptions is_sub_domain_is_suffix_test.
+
+Theorem is_sub_domain_is_full_common_suffix :
+  forall (fq : bool) (parent child : list label),
+    labels_wf parent -> parent <> [] -> labels_wf child -> child <> [] ->
+    is_sub_domain (name_form fq parent) (name_form fq child) =
+    Ok (Nat.eqb (common_suffix_ci parent child) (length parent)).
+Proof. exact is_sub_domain_spec. Qed.
+Print Assumptions is_sub_domain_is_full_common_suffix.
+
+(* everything is under the root; the root is under no other name *)
+Theorem is_sub_domain_with_root :
+  (forall s : bytes, is_sub_domain [46%N] s = Ok true) /\
+  (forall (fq : bool) (ls : list label), labels_wf ls -> ls <> [] ->
+     is_sub_domain (name_form fq ls) [46%N] = Ok false).
+Proof. split; [exact is_sub_domain_root_parent|exact is_sub_domain_root_child]. Qed.
+Print Assumptions is_sub_domain_with_root.
+
+(* ---- dnsutil.AddOrigin: a relative name under a non-root origin is the
+   concatenation of the label lists, in the form of the origin ---- *)
+Theorem add_origin_concatenates_labels :
+  forall (fq : bool) (ls os : list label),
+    labels_wf ls -> ls <> [] -> labels_wf os -> os <> [] ->
+    add_origin (name_form false ls) (name_form fq os) = name_form fq (ls ++ os).
+Proof. exact add_origin_spec. Qed.
+Print Assumptions add_origin_concatenates_labels.
+
+(* ---- dnsutil.TrimDomainName: when the labels of s end with those of the origin
+   (in any letter case, any of the two forms on either side) the result is the
+   labels before them without a final dot, or the at sign at the apex ---- *)
+Theorem trim_domain_name_strips_origin_labels :
+  forall (fqs fqo : bool) (ls os os' : list label),
+    labels_wf ls -> labels_wf os -> os <> [] -> labels_wf os' -> labels_eq_ci os os' ->
+    trim_domain_name (name_form fqs (ls ++ os')) (name_form fqo os) =
+    Ok (match ls with [] => [64%N] | _ => name_form false ls end).
+Proof. exact trim_domain_name_spec. Qed.
+Print Assumptions trim_domain_name_strips_origin_labels.
+
+(* ... and otherwise s is returned unchanged: ending with the TEXT of the origin
+   without a label boundary does not count *)
+Theorem trim_domain_name_keeps_names_outside_origin :
+  forall (fqs fqo : bool) (ss os : list label),
+    labels_wf ss -> ss <> [] -> labels_wf os -> os <> [] ->
+    common_suffix_ci os ss <> length os ->
+    trim_domain_name (name_form fqs ss) (name_form fqo os) = Ok (name_form fqs ss).
+Proof. exact trim_domain_name_not_sub. Qed.
+Print Assumptions trim_domain_name_keeps_names_outside_origin.
+
+(* ---- TrimDomainName after AddOrigin is the identity on relative names ---- *)
+Theorem trim_after_add_origin_is_identity :
+  forall (fq : bool) (ls os : list label),
+    labels_wf ls -> ls <> [] -> labels_wf os -> os <> [] ->
+    trim_domain_name (add_origin (name_form false ls) (name_form fq os)) (name_form fq os) =
+    Ok (name_form false ls).
+Proof. exact trim_add_origin. Qed.
+Print Assumptions trim_after_add_origin_is_identity.
+
+Theorem trim_after_add_origin_is_identity_under_root :
+  forall ls : list label,
+    labels_wf ls -> ls <> [] ->
+    trim_domain_name (add_origin (name_form false ls) [46%N]) [46%N] = Ok (name_form false ls).
+Proof. exact trim_add_origin_root. Qed.
+Print Assumptions trim_after_add_origin_is_identity_under_root.
+
+Theorem trim_after_add_origin_is_identity_on_at_sign :
+  forall (fq : bool) (os : list label),
+    labels_wf os -> os <> [] ->
+    trim_domain_name (add_origin [64%N] (name_form fq os)) (name_form fq os) = Ok [64%N].
+Proof. exact trim_add_origin_at. Qed.
+Print Assumptions trim_after_add_origin_is_identity_on_at_sign.
+
+(* REFUTED for the at sign under the root origin: the apex "." is trimmed to the
+   empty string, which TrimDomainName documents it never returns *)
+Theorem trim_after_add_origin_at_sign_under_root_refuted :
+  add_origin [64%N] [46%N] = [46%N] /\ trim_domain_name [46%N] [46%N] = Ok [] /\
+  trim_domain_name (add_origin [64%N] [46%N]) [46%N] <> Ok [64%N].
+Proof. exact trim_add_origin_at_root_refuted. Qed.
+Print Assumptions trim_after_add_origin_at_sign_under_root_refuted.
+
+(* REFUTED for the empty string (not a name): expanded like the at sign, it comes
+   back as the at sign *)
+Theorem trim_after_add_origin_empty_string_refuted :
+  let o := name_form true [[97]]%N in
+  add_origin [] o = o /\ trim_domain_name (add_origin [] o) o = Ok [64%N].
+Proof. exact trim_add_origin_empty_refuted. Qed.
+Print Assumptions trim_after_add_origin_empty_string_refuted.
+
+(* ---- AddOrigin after TrimDomainName restores a name under the origin, with
+   the origin's spelling of the shared labels: the same name up to ASCII case ---- *)
+Theorem add_origin_after_trim_restores_name_up_to_case :
+  forall (fq : bool) (ls os os' : list label),
+    labels_wf ls -> ls <> [] -> labels_wf os -> os <> [] -> labels_wf os' -> labels_eq_ci os os' ->
+    trim_domain_name (name_form fq (ls ++ os')) (name_form fq os) = Ok (name_form false ls) /\
+    add_origin (name_form false ls) (name_form fq os) = name_form fq (ls ++ os) /\
+    canonical_name (name_form fq (ls ++ os)) = canonical_name (name_form fq (ls ++ os')).
+Proof. exact add_origin_trim. Qed.
+Print Assumptions add_origin_after_trim_restores_name_up_to_case.
+
+(* s equal to the origin (up to case): the at sign, which expands to the origin *)
+Theorem add_origin_after_trim_at_apex :
+  forall (fq : bool) (os os' : list label),
+    labels_wf os -> os <> [] -> labels_wf os' -> labels_eq_ci os os' ->
+    trim_domain_name (name_form fq os') (name_form fq os) = Ok [64%N] /\
+    add_origin [64%N] (name_form fq os) = name_form fq os.
+Proof. exact add_origin_trim_apex. Qed.
+Print Assumptions add_origin_after_trim_at_apex.
+
+(* an FQDN outside the origin goes through both functions unchanged *)
+Theorem add_origin_after_trim_outside_origin :
+  forall (fqo : bool) (ss os : list label),
+    labels_wf ss -> ss <> [] -> labels_wf os -> os <> [] ->
+    common_suffix_ci os ss <> length os ->
+    trim_domain_name (name_form true ss) (name_form fqo os) = Ok (name_form true ss) /\
+    add_origin (name_form true ss) (name_form fqo os) = name_form true ss.
+Proof. exact add_origin_trim_not_sub. Qed.
+Print Assumptions add_origin_after_trim_outside_origin.
+
+(* origin ".": the final dot is removed and put back *)
+Theorem add_origin_after_trim_under_root :
+  forall ls : list label,
+    labels_wf ls -> ls <> [] ->
+    trim_domain_name (name_form true ls) [46%N] = Ok (name_form false ls) /\
+    add_origin (name_form false ls) [46%N] = name_form true ls.
+Proof. exact add_origin_trim_root. Qed.
+Print Assumptions add_origin_after_trim_under_root.
+
+(* REFUTED as an exact equality: the letter case of the origin part of s is
+   lost.  Witness: a.B. under b. comes back as a.b. *)
+Theorem add_origin_after_trim_case_refuted :
+  let s := name_form true [[97]; [66]]%N in let o := name_form true [[98]]%N in
+  is_sub_domain o s = Ok true /\ trim_domain_name s o = Ok [97%N] /\
+  add_origin [97%N] o = name_form true [[97]; [98]]%N /\ add_origin [97%N] o <> s.
+Proof. exact add_origin_trim_case_refuted. Qed.
+Print Assumptions add_origin_after_trim_case_refuted.
+
+(* REFUTED for origin "." on a relative name ending in an escaped dot: the
+   textual TrimSuffix cuts the escaped dot and leaves a dangling backslash *)
+Theorem trim_domain_name_root_origin_cuts_escaped_dot_refuted :
+  let s := name_form false [[97; 46]]%N in
+  labels_wf [[97; 46]]%N /\ s = [97; 92; 46]%N /\ is_fqdn s = false /\
+  trim_domain_name s [46%N] = Ok [97; 92]%N.
+Proof. exact trim_domain_name_root_escaped_dot_refuted. Qed.
+Print Assumptions trim_domain_name_root_origin_cuts_escaped_dot_refuted.
+
+(* ---- non-vacuity: names with an escaped dot, a backslash and a non-printable
+   octet satisfy the hypotheses, and the helpers compute the stated values ---- *)
+Example c19_split_prev_example :
+  let mid := [[97; 46; 98]; [92]]%N in let last := [0; 65]%N in
+  labels_wf mid /\ (last <> [] /\ wfb last) /\
+  split_domain_name (name_form false (mid ++ [last])) =
+    Ok [[97; 92; 46; 98]; [92; 92]; [92; 48; 48; 48; 65]]%N /\
+  prev_label (name_form true (mid ++ [last])) 1 = (8%nat, false) /\
+  prev_label (name_form true (mid ++ [last])) 2 = (5%nat, false) /\
+  prev_label (name_form true (mid ++ [last])) 3 = (0%nat, false) /\
+  prev_label (name_form true (mid ++ [last])) 4 = (0%nat, true).
+Proof. cbn zeta. split; [labels_wf_tac|]. split; [labels_wf_tac|]. repeat split; reflexivity. Qed.
+
+Example c19_compare_example :
+  let ls1 := [[119]; [97; 46; 98]; [0; 65]]%N in
+  let ls2 := [[120; 120]; [65; 46; 66]; [0; 97]]%N in
+  labels_wf ls1 /\ ls1 <> [] /\ labels_wf ls2 /\ ls2 <> [] /\
+  common_suffix_ci ls1 ls2 = 2%nat /\
+  compare_domain_name (name_form true ls1) (name_form true ls2) = Ok 2%nat /\
+  labels_eq_ci [[97; 46; 98]; [0; 65]]%N [[65; 46; 66]; [0; 97]]%N /\
+  common_suffix_ci [[97; 46; 98]; [0; 65]]%N ls2 = 2%nat /\
+  is_sub_domain (name_form false [[97; 46; 98]; [0; 65]]%N) (name_form false ls2) = Ok true /\
+  common_suffix_ci [[98]; [0; 65]]%N ls2 <> 2%nat /\
+  is_sub_domain (name_form true [[98]; [0; 65]]%N) (name_form true ls2) = Ok false.
+Proof.
+  cbn zeta. split; [labels_wf_tac|]. split; [discriminate|]. split; [labels_wf_tac|].
+  split; [discriminate|]. split; [reflexivity|]. split; [reflexivity|].
+  split; [repeat constructor|]. split; [reflexivity|]. split; [reflexivity|].
+  split; [discriminate|reflexivity].
+Qed.
+
+Example c19_origin_example :
+  let ls := [[119; 46]]%N in let os := [[92]; [0; 65]]%N in let os' := [[92]; [0; 97]]%N in
+  labels_wf ls /\ ls <> [] /\ labels_wf os /\ os <> [] /\ labels_wf os' /\ labels_eq_ci os os' /\
+  add_origin (name_form false ls) (name_form true os) = name_form true (ls ++ os) /\
+  trim_domain_name (name_form true (ls ++ os')) (name_form true os) = Ok [119; 92; 46]%N /\
+  common_suffix_ci os [[119; 46; 92]; [0; 65]]%N <> length os /\
+  trim_domain_name (name_form true [[119; 46; 92]; [0; 65]]%N) (name_form true os) =
+    Ok (name_form true [[119; 46; 92]; [0; 65]]%N).
+Proof.
+  cbn zeta. split; [labels_wf_tac|]. split; [discriminate|]. split; [labels_wf_tac|].
+  split; [discriminate|]. split; [labels_wf_tac|]. split; [repeat constructor|].
+  split; [reflexivity|]. split; [reflexivity|]. split; [discriminate|reflexivity].
+Qed.
